@@ -6,6 +6,7 @@ import (
 	"path/filepath"
 
 	"github.com/goatcms/goatcore/filesystem"
+	"github.com/goatcms/goatcore/varutil/goaterr"
 )
 
 // Copy duplicate a file or a directory
@@ -18,17 +19,29 @@ func Copy(src, dest string) error {
 
 // CopyDirectory copy a directory and sub-direcotories and files on local files system.
 func CopyDirectory(src, dest string) error {
+	if !IsDir(src) {
+		return goaterr.Errorf("%s is not a directory", src)
+	}
 	return filepath.Walk(src, func(path string, info os.FileInfo, err error) error {
-		subPath := path + "/" + info.Name()
-		if info.IsDir() {
-			return MkdirAll(subPath, filesystem.DefaultUnixDirMode)
+		var rel string
+		if err != nil {
+			return err
 		}
-		return CopyFile(src+subPath, dest+subPath)
+		if rel, err = filepath.Rel(src, path); err != nil {
+			return err
+		}
+		if info.IsDir() {
+			return MkdirAll(filepath.Join(dest, rel), filesystem.DefaultUnixDirMode)
+		}
+		return CopyFile(path, filepath.Join(dest, rel))
 	})
 }
 
 // CopyFile copy a single file on local files system.
 func CopyFile(src, dst string) error {
+	if IsDir(src) {
+		return goaterr.Errorf("%s is a directory", src)
+	}
 	s, err := os.Open(src)
 	if err != nil {
 		return err
